@@ -16,7 +16,7 @@ SIGMA = ["{", "}", "(", ")", ":", '"', "\\", "u", "1", "a", ".", "-", "#", "\n",
          "\ud83d", "\udc00", "[", "@", "!", "e", "0"]
 EDIT = ["{", "}", "(", '"', "\\", "u", "1", "a", ".", "-", "#", "\n", "$", "\ud83d", "\udc00", "\x00", "[", "@", "!", ":", "="]
 BOUNDS = {
-    "quick": "all strings <=4 over 25 symbols x 5 parsing entry points; every prefix and every single edit (3 ops x 21 symbols x every position) of 2 kitchen-sink files and 30 hand seeds; nesting depth 1..100 x 6 productions complete and cut at every depth; 320 sources x 14 variable maps x 5 operation names through graphql_sync; every builtin Exception class + 16 attribute-shape classes x 8 raise positions x sync/async; every ordered pair of 44 escape forms (fixed-width and braced unicode escapes at every surrogate / plane boundary, simple and invalid escapes, raw surrogates) in a string, alone and as an argument, cut at every position, value compared with the reference tokenizer; structured request matrix: 12 selection contexts (3 operation types, object/list/union/interface parents, fragments) x 21 directive targets (every meta field, every field kind, inline/named spreads) x 92 directive forms (7 directive arguments x 11 value forms, repeats, unknown) x variable definitions x variable maps x schema with/without @defer/@stream; 10 typed variables x 18 runtime values x 20 map keys (case-mapping-length-changing, surrogate, non-str) at 5 nesting positions",
+    "quick": "all strings <=4 over 25 symbols x 5 parsing entry points; every prefix and every single edit (3 ops x 21 symbols x every position) of 2 kitchen-sink files and 30 hand seeds; nesting depth 1..100 x 6 productions complete and cut at every depth; 320 sources x 14 variable maps x 5 operation names through graphql_sync; every builtin Exception class + 16 attribute-shape classes x 8 raise positions x sync/async; every ordered pair of 44 escape forms (fixed-width and braced unicode escapes at every surrogate / plane boundary, simple and invalid escapes, raw surrogates) in a string, alone and as an argument, cut at every position, value compared with the reference tokenizer; structured request matrix: 12 selection contexts (3 operation types, object/list/union/interface parents, fragments) x 21 directive targets (every meta field, every field kind, inline/named spreads) x 92 directive forms (7 directive arguments x 11 value forms, repeats, unknown) x variable definitions x variable maps, against a schema with @defer/@stream (all contexts) and without (3 contexts; all in the thorough tier); 10 typed variables x 18 runtime values x 20 map keys (case-mapping-length-changing, surrogate, non-str) at 5 nesting positions",
     "thorough": "strings <=5 over 25 symbols; double edits on hand seeds <=25 chars (10 symbols)",
 }
 RULE = (
@@ -114,6 +114,8 @@ def shards(tier):
         out.append(("resolvers", (part, 4)))
     for ci in range(len(MX_CONTEXTS)):
         for with_incr in (False, True):
+            if tier == "quick" and not with_incr and ci not in (0, 2, 5):
+                continue  # quick: the plain schema (graphql_sync itself) for the query root, subscription root and union contexts
             out.append(("matrix", (ci, with_incr)))
     out.append(("varkeys", None))
     for i in range(len(ESCAPES)):
@@ -611,11 +613,11 @@ def run_matrix(ci, with_incr, tier, res, viol):
             sel = pre % (target % d) if "%s" in pre else pre
             tail = suf % (target % d) if "%s" in suf else suf
             # variable definitions: all of them for the first directive forms, the two Boolean ones elsewhere
-            vardefs = MX_VARDEFS if (di < 15 or tier == "thorough") else MX_VARDEFS[:3]
-            for vd in vardefs:
+            vardefs = MX_VARDEFS if (di < 15 or tier == "thorough") else MX_VARDEFS[:2]
+            for vi, vd in enumerate(vardefs):
                 vdt = vd % d if "%s" in vd else vd
                 src = f"{op} {vdt} {{ {sel} }}{tail} fragment G on Query {{ f }}"
-                vms = MX_VARS if (vd and (di % 11 == 5 or di < 15 or tier == "thorough")) else MX_VARS[:2]
+                vms = MX_VARS if (vd and (vi < 3 or tier == "thorough")) else MX_VARS[:2]
                 for vname, v in vms:
                     check_matrix_request(sch, src, vname, v, res, viol)
                     n += 1
